@@ -203,3 +203,55 @@ theorem depthAfter_elems (es : List Elem) (hes : ∀ e ∈ es, e.ok) (d : Nat) :
     simp [depthAfter, ih (fun x hx => hes x (by simp [hx]))]
 
 end XmppModel.Stanza
+
+namespace XmppModel.Stanza
+open XmppModel.Xml
+
+/-! ### the trip through bytes and `UnmarshalError` (round C) -/
+
+theorem inherit_self (s : String) : (if s = "" then "" else s) = s := by
+  by_cases h : s = "" <;> simp [h]
+
+/-- text elements carry their own namespace: printing and re-parsing leaves them as they are -/
+theorem wireGo_texts (l : List (String × String)) (st : List String) (rest : List Tok) :
+    wireGo st (l.flatMap (textElem nsErr) ++ rest) = l.flatMap (textElem nsErr) ++ wireGo st rest := by
+  induction l with
+  | nil => simp
+  | cons p ps ih =>
+    simp only [List.flatMap_cons, List.append_assoc]
+    simp [textElem, wireGo, nsErr, topNs] at ih ⊢
+    exact ih
+
+theorem depthAfter_errContent (e : SErr) : depthAfter 0 (errContent e []) = some 0 := by
+  unfold errContent
+  rw [List.append_nil, depthAfter_append]
+  simp [depthAfter, depthAfter_texts]
+
+/-- the error reply after the trip: everything as before, the `<error/>` element now in the
+content namespace of the stanza -/
+theorem wireGo_errorReply (k : Kind) (x : Stz) (e : SErr) :
+    wireGo [] (errorReply k x e) =
+      wrap k (swap x "error") (.start ⟨x.name.space, "error"⟩ (errAttrs e) :: errContent e [] ++
+        [.stop ⟨x.name.space, "error"⟩]) := by
+  simp only [errorReply, wrap, startElement, startName, swap, errTokens, errContent, List.cons_append,
+    List.append_assoc, List.append_nil, List.nil_append, List.singleton_append]
+  simp only [wireGo, topNs, inherit_self, if_true]
+  simp only [show (nsErr = "") = False from by simp [nsErr], if_false]
+  rw [wireGo_texts]
+  simp [wireGo, topNs]
+
+/-- the names of the element do not matter to `(*stanza.Error).UnmarshalXML` -/
+theorem decodeErr_names (parse : String → Option String) (n m n' m' : Name) (as : List Attr) (c : List Tok) :
+    decodeErr parse (.start n as :: c ++ [.stop m]) = decodeErr parse (.start n' as :: c ++ [.stop m']) := by
+  unfold decodeErr
+  rw [contentOf_wrap, contentOf_wrap]
+
+/-- the search of `UnmarshalError` stops at an error element that comes first, and hands its
+content (balanced) to the decoder -/
+theorem findError_first (p : Name → Bool) (n m : Name) (as : List Attr) (c rest : List Tok) (hp : p n = true)
+    (hc : depthAfter 0 c = some 0) :
+    findErrorP p 0 (.start n as :: c ++ .stop m :: rest) = some (n, as, c) := by
+  have := Encoder.inner_balanced c (.stop m :: rest) 0 0 hc
+  simp [findErrorP, hp, this, Encoder.inner]
+
+end XmppModel.Stanza
